@@ -57,7 +57,10 @@ func Check20Stmts(f Family20, r *core.Rec) {
 	}
 	rep := Report20{Family: f, Stmts: counts, Sizes: f.Sizes}
 	if len(rep.Sizes) == 0 {
-		rep.Sizes = []int{1000, 4000, 16000}
+		rep.Sizes = DefaultSizes20()
+	}
+	if len(counts) < len(rep.Sizes) {
+		rep.Sizes = rep.Sizes[:len(counts)]
 	}
 	for i := 1; i < len(counts); i++ {
 		rep.ExpStmts = append(rep.ExpStmts, exponent(float64(counts[i-1]), float64(counts[i]), float64(rep.Sizes[i])/float64(rep.Sizes[i-1])))
